@@ -108,7 +108,7 @@ func cmdIntro(args []string) {
 				defer func() {
 					if p := recover(); p != nil {
 						obs = map[string]interface{}{"ev": "obs", "panic": fmt.Sprint(p), "ok": false, "len": -1, "outs": []int{}, "errnil": false, "errtok": -1,
-							"unsat": false, "inp": []jval{}, "out": []jval{}, "values": []jval{}, "named": []int{}, "typed": []int{}, "ts": []int{}, "roundtrip": []int{}}
+							"unsat": false, "inp": []jval{}, "out": []jval{}, "values": []jval{}, "named": []int{}, "typed": []int{}, "ts": []int{}, "roundtrip": []int{}, "accept": false}
 					}
 				}()
 				switch *kind {
@@ -118,6 +118,8 @@ func cmdIntro(args []string) {
 					obs = obsC14(d)
 				case "c15":
 					obs = obsC15(d)
+				case "filter":
+					obs = obsFilter(d)
 				default:
 					die("unknown kind %q", *kind)
 				}
@@ -570,4 +572,44 @@ func obsC15(raw json.RawMessage) map[string]interface{} {
 	}
 	obs["roundtrip"] = rt
 	return obs
+}
+
+// ---------------------------------------------------------------- filters (Filter.tla)
+
+type fexpr struct {
+	Op string  `json:"op"`
+	T  string  `json:"t"`
+	Fs []fexpr `json:"fs"`
+}
+type dFilter struct {
+	F     fexpr  `json:"f"`
+	VT    string `json:"vt"`
+	Named bool   `json:"named"`
+}
+
+func buildFilter(f fexpr) am.FilterFunc {
+	var subs []am.FilterFunc
+	for _, x := range f.Fs {
+		subs = append(subs, buildFilter(x))
+	}
+	switch f.Op {
+	case "type":
+		return am.FilterType(tyOf(f.T))
+	case "and":
+		return am.FilterAnd(subs...)
+	default:
+		return am.FilterOr(subs...)
+	}
+}
+
+func obsFilter(raw json.RawMessage) map[string]interface{} {
+	var d dFilter
+	if err := json.Unmarshal(raw, &d); err != nil {
+		die("filter desc: %v", err)
+	}
+	v := am.Value{Type: tyOf(d.VT)}
+	if d.Named {
+		v.Name, v.Subtype = "a", "s"
+	}
+	return map[string]interface{}{"ev": "obs", "accept": buildFilter(d.F)(v)}
 }
